@@ -117,7 +117,7 @@ def main():
             rel, q, op, desc, k, how, props = job
             killed = sorted(p for p, (rc, _) in res.items() if rc == 1)
             undecided = sorted(p for p, (rc, _) in res.items() if rc == 2)
-            results.append({"kind": kind, "file": rel, "function": q, "operator": op, "what": desc, "killed_by": killed, "cannot_decide": undecided,
+            results.append({"kind": kind, "file": rel, "function": q, "operator": op, "what": desc, "k": k, "how": how, "killed_by": killed, "cannot_decide": undecided,
                             "first_rules": {p: v[1] for p, v in res.items()}})
     tk = [r for r in results if r["kind"] == "target"]
     bs = [r for r in results if r["kind"] == "bystander"]
